@@ -314,7 +314,8 @@ class CallMixin:
         c = None
         if has_self and self_sv is not None and isinstance(self_sv.ty, T.Obj):
             # an inherited method may carry a contract stated for the receiver's own class (verified against that class's schema): prefer it
-            fam_classes = [self_sv.cls] if self_sv.cls else [q for q in R.SCHEMAS[self_sv.ty.family].classes if not q.startswith("ext:")]
+            fam_classes = [q for q in R.SCHEMAS[self_sv.ty.family].classes if not q.startswith("ext:")]
+            fam_classes = [self_sv.cls] if self_sv.cls else (fam_classes if len(fam_classes) == 1 else [])    # only when the receiver's class is certain
             for q in fam_classes:
                 if q == "%s:%s" % (m, cname): continue
                 c2 = self.find_contract(q + "." + fnode.name)
